@@ -359,6 +359,9 @@ class G:
         return ''
 
     def inputs(self, nrand=30, nsample=25, short=True):
+        return list(getattr(self, 'extra_inputs', [])) + self._inputs(nrand, nsample, short)
+
+    def _inputs(self, nrand=30, nsample=25, short=True):
         rng = self.rng
         out = []
         seen = set()
@@ -409,10 +412,66 @@ class G:
             walk(r)
 
 
+def rename(e, perm):
+    """Apply a renumbering of the rules to an expression tree."""
+    if isinstance(e, tuple):
+        if e and e[0] == 'name':
+            return ('name', perm[e[1]])
+        return tuple(rename(x, perm) for x in e)
+    if isinstance(e, list):
+        return [rename(x, perm) for x in e]
+    return e
+
+
+def permute(g, perm):
+    """Reorder the rules (rule i becomes rule perm[i]).  The generator only makes first-position references to LATER rules;
+    after a permutation the first rule of the file, from which the -switch analysis starts its depth-first walk, can reach a rule
+    whose first-position references lead back to a rule still being analysed (guarded recursion through the entry rule)."""
+    rules = [None] * g.n
+    nullable = [None] * g.n
+    for i in range(g.n):
+        rules[perm[i]] = rename(g.rules[i], perm)
+        nullable[perm[i]] = g.nullable[i]
+    g.rules, g.nullable = rules, nullable
+    return g
+
+
+def recursive_family(rng):
+    """S <- C !.  C <- t A / t   A <- C t D / t   D <- A t / t t / t t  — a rule (A) whose first-position reference (C) is still
+    being analysed when the depth-first walk of the -switch analysis reaches it, used at the head of a dispatched choice (D)."""
+    ts = rng.sample('abcdefghijklmnopqrstuvwxyz', 10)
+    c = lambda ch: ('chr', ch)
+    g = G.__new__(G)
+    g.rng, g.n, g.shape, g.alpha = rng, 4, 'switch', sorted(set(ts[:6]))
+    g.nact = g.nstmt = 0
+    g.has_capture = False
+    g.cur = 0
+    g.rules = [
+        ('seq', [('name', 1), ('not', ('dot',))]),
+        ('alt', [('seq', [c(ts[0]), ('name', 2)]), c(ts[1])], False),
+        ('alt', [('seq', [('name', 1), c(ts[2]), ('name', 3)]), c(ts[3])], False),
+        ('alt', [('seq', [('name', 2), c(ts[4])]), ('seq', [c(ts[0] if rng.random() < 0.5 else ts[5]), c(ts[6])]), ('seq', [c(ts[7]), c(ts[8])])], False),
+    ]
+    g.nullable = [False, False, False, False]
+    t = ts
+    # inputs on which the dispatched choice in D must take its FIRST alternative although it begins like another one
+    d1 = t[0] + t[3] + t[2] + t[7] + t[8] + t[4]
+    d2 = t[1] + t[2] + t[7] + t[8] + t[4]
+    g.extra_inputs = [t[0] + t[1] + t[2] + d1, t[0] + t[1] + t[2] + d2, t[0] + t[1] + t[2] + t[7] + t[8], t[1], t[0] + t[3]]
+    return g
+
+
 def gen_grammar(seed, idx, shape='core'):
     rng = random.Random('%s/%s/%s' % (seed, shape, idx))
     n = rng.choice([1, 2, 2, 3, 3, 4, 5])
-    return G(rng, n, shape)
+    if shape == 'switch' and idx % 10 == 9:
+        return recursive_family(rng)
+    g = G(rng, n, shape)
+    if shape == 'switch' and n >= 3 and rng.random() < 0.35:
+        perm = list(range(n))
+        rng.shuffle(perm)
+        g = permute(g, perm)
+    return g
 
 
 # ---- exhaustive enumeration of small grammars (deterministic part of every tie) ---------------
